@@ -52,6 +52,18 @@ func judgeBoundary(k *run.K, g geom.Geometry) {
 	}
 	shared.ConcreteAgree(k, g, "concrete-entry", []shared.Call{{Method: "Boundary"}, {Method: "PointOnSurface"}, {Method: "Dimension"}, {Method: "IsEmpty"}}, shared.NormBoundary)
 	k.Obs("boundary", shared.WKT(b))
+	if g.IsGeometryCollection() && g.IsEmpty() {
+		// a collection without any control point: the boundary is the empty set; which empty collection
+		// represents it is not fixed by the statement (the library returns the receiver, and its own tests
+		// pin that), exactly as only emptiness is required of the boundary of an empty Polygon or LineString
+		var bb geom.Geometry
+		if !k.Lib("nopanic", func() { bb = b.Boundary() }) {
+			k.Check("boundary-collection", b.IsGeometryCollection() && b.IsEmpty() && b.DumpCoordinates().Length() == 0 && bb.IsEmpty(),
+				"Boundary of the empty collection %s is %s (its boundary %s)", g.AsText(), b.AsText(), bb.AsText())
+		}
+		k.Count("empty_collection_boundaries", 1)
+		return
+	}
 	if g.IsGeometryCollection() {
 		// structural: the collection of the non-empty member boundaries (2D)
 		var want []geom.Geometry
@@ -440,6 +452,58 @@ func runAll(c *run.Ctx) {
 			if k.Rng.Bool() {
 				x = geom.NewMultiPolygon([]geom.Polygon{x.MustAsPolygon()}).AsGeometry()
 			}
+			one(k, x, gen.DSmall)
+		})
+	}
+	// collections nested to depth 3 built mostly from empties of every type (typed empties, Multi* of empty
+	// members, childless collections) with at most a few small non-empty members: Dimension / IsEmpty / Boundary /
+	// PointOnSurface against the structure
+	for i := 0; i < c.N(1500, 20000); i++ {
+		c.Case("nested-empties", i, func(k *run.K) {
+			r := k.Rng
+			var mk func(depth int) geom.Geometry
+			leaf := func() geom.Geometry {
+				switch r.Intn(12) {
+				case 0:
+					return geom.Point{}.AsGeometry()
+				case 1:
+					return geom.LineString{}.AsGeometry()
+				case 2:
+					return geom.Polygon{}.AsGeometry()
+				case 3:
+					return geom.MultiPoint{}.AsGeometry()
+				case 4:
+					return geom.MultiLineString{}.AsGeometry()
+				case 5:
+					return geom.MultiPolygon{}.AsGeometry()
+				case 6:
+					return geom.NewMultiPoint([]geom.Point{{}, {}}).AsGeometry()
+				case 7:
+					return geom.NewMultiLineString([]geom.LineString{{}}).AsGeometry()
+				case 8:
+					return geom.NewMultiPolygon([]geom.Polygon{{}, {}}).AsGeometry()
+				case 9:
+					return geom.NewPointXY(float64(r.Range(0, 5)), float64(r.Range(0, 5))).AsGeometry()
+				case 10:
+					x, y := float64(r.Range(0, 5)), float64(r.Range(0, 5))
+					return geom.NewLineStringXY(x, y, x+1, y+2).AsGeometry()
+				default:
+					return geom.GeometryCollection{}.AsGeometry()
+				}
+			}
+			mk = func(depth int) geom.Geometry {
+				var ms []geom.Geometry
+				for n := r.Range(0, 3); n > 0; n-- {
+					if depth > 0 && r.Chance(2, 5) {
+						ms = append(ms, mk(depth-1))
+					} else {
+						ms = append(ms, leaf())
+					}
+				}
+				return geom.NewGeometryCollection(ms).AsGeometry()
+			}
+			x := mk(3)
+			k.Count("nested_empty_collections", 1)
 			one(k, x, gen.DSmall)
 		})
 	}
